@@ -936,6 +936,78 @@ func subOpCffRun(f Fields) string {
 	return R
 }
 
+// subOpEncRT: the built-in encoding of the subset after Write and Read, in terms of OLD glyph ids
+// (`code-old` for every code that selects a glyph other than .notdef), or err:... if the subset
+// cannot be written.  The run is repeated until the glyph order equals the `order` field.
+func subOpEncRT(f Fields) string {
+	want := f["order"]
+	sf, glyphs, ok := subParseCase(f)
+	if !ok {
+		return "panic"
+	}
+	start := time.Now()
+	for try := 0; try < subMaxTries; try++ {
+		var b *subBuilt
+		var res *sfnt.Font
+		out := guard(func() string {
+			b = subBuild(sf)
+			res = b.font.Subset(glyphs)
+			return ""
+		})
+		if out != "" {
+			return "panic"
+		}
+		var order string
+		out = guard(func() string {
+			order, _ = subRender(b, res)
+			return ""
+		})
+		if out != "" {
+			return "render-" + out
+		}
+		if order != want {
+			if try%16 == 15 && time.Since(start) > subMaxSearch {
+				break
+			}
+			continue
+		}
+		olds := subIntList(order, ",")
+		return canonPanic(guard(func() string {
+			var buf bytes.Buffer
+			if _, err := res.Write(&buf); err != nil {
+				if strings.Contains(err.Error(), "encoded glyphs not contiguous") {
+					return "err:encoding"
+				}
+				return "err:write:" + subErrClass(err)
+			}
+			back, err := sfnt.Read(bytes.NewReader(buf.Bytes()))
+			if err != nil {
+				return "err:read:" + subErrClass(err)
+			}
+			o, isCFF := back.Outlines.(*cff.Outlines)
+			if !isCFF {
+				return "not-cff"
+			}
+			if o.Encoding == nil {
+				return "E@-"
+			}
+			var ents [][2]int
+			for code, g := range o.Encoding {
+				if g == 0 {
+					continue
+				}
+				old := -1
+				if int(g) < len(olds) {
+					old = olds[g]
+				}
+				ents = append(ents, [2]int{code, old})
+			}
+			return "E@" + subShowPairs(ents)
+		}))
+	}
+	return "order-not-reproduced"
+}
+
 const subMaxTries = 5000
 
 // subMaxSearch bounds the search for the recorded order in wall-clock time (the harness gives up
@@ -1038,6 +1110,7 @@ func init() {
 	ops["subset.check"] = func(f Fields) string { return "ok" }
 	ops["subset.writable"] = subOpWritable
 	ops["subset.cffrun"] = subOpCffRun
+	ops["subset.encrt"] = subOpEncRT
 	ops["subset.mustwrite"] = subOpWritable // D replay op: the property claims every subset can be written
 }
 
@@ -1441,10 +1514,31 @@ func subGenFont(c *Ctx) (sf *subFont, depth int, gsubFree bool) {
 					codes[i] = start + i
 				}
 			}
+			used := map[int]bool{}
 			for g := 1; g <= m; g++ {
 				sf.enc = append(sf.enc, [2]int{codes[g-1], g})
+				used[codes[g-1]] = true
+			}
+			// several codes for one glyph (space at 0x20 and 0xA0, ...): the writer stores the
+			// additional codes as supplemental encoding entries
+			if r.Chance(1, 2) {
+				for extra := r.Range(1, 4); extra > 0; extra-- {
+					code := r.Intn(256)
+					if used[code] {
+						continue
+					}
+					used[code] = true
+					sf.enc = append(sf.enc, [2]int{code, r.Range(1, m)})
+				}
 			}
 			sort.Slice(sf.enc, func(a, b int) bool { return sf.enc[a][0] < sf.enc[b][0] })
+			// A simple CFF font with a built-in encoding needs distinct glyph names:
+			// supplemental encoding entries refer to glyphs by name (SID), and the reader
+			// rejects a supplement whose name resolves to a glyph without a primary code.
+			distinct := subPerm(r, n+5)
+			for i := 1; i < n; i++ {
+				sf.nm[i] = distinct[i] + 1
+			}
 		}
 	case "cid":
 		sf.np = r.Range(1, 5)
@@ -1616,6 +1710,8 @@ func subClass(out string) string {
 	switch {
 	case strings.HasPrefix(out, "G@"):
 		return "R"
+	case strings.HasPrefix(out, "E@"):
+		return "E"
 	case strings.HasPrefix(out, "ok:"):
 		return "ok"
 	case strings.HasPrefix(out, "err:write:"), strings.HasPrefix(out, "err:read:"):
@@ -1725,6 +1821,10 @@ func areaSubset(c *Ctx) {
 			_ = outside
 			res := c.Case(kind, "subset.check", fontArgs+glyphsArg+" res="+R, nontrivial)
 			c.Stat("check_outcome", kind+":"+res)
+		}
+		if sf.kind == "cff" && !sf.encNil && status == "" {
+			er := c.Case(Direct, "subset.encrt", fontArgs+glyphsArg+" order="+order, nontrivial)
+			c.Stat("encrt_outcome", subClass(er))
 		}
 		if sf.kind != "ttf" && i%2 == 0 {
 			cr := c.Case(Verdict, "subset.cffrun", fontArgs+glyphsArg, nontrivial)
